@@ -5,6 +5,9 @@ Runtime monitor over generated methods (see DESIGN.md C03):
   re-judged at the same instant against the *observed* clock tag value the statement designates (Block Time inside a
   block, Scope Time otherwise, the registered volume accumulators for Base L/mL), with exact rational arithmetic;
 * a pending line must be re-evaluated in every interpreter tick and must start in the tick in which it is released;
+* the same two bounds on thresholds of 1000 s and more (10 000 s and more in the thorough tier) in a small stratum of
+  runs of 10-11 thousand (100-110 thousand) ticks: clock strings with four/five integer digits, float sums of 10^4-10^5
+  increments;
 * the successor of `Wait: d` must start no earlier than d after the Wait's start (engine ticks x 0.1 s) and no later
   than ceil(d/0.1)+1 *interpreter* ticks after it (pauses/holds do not count).
 """
@@ -26,7 +29,12 @@ TECHNIQUE = ("runtime monitoring: differential re-evaluation of every threshold 
 RULE = ("seeded generator of methods with thresholds on Mark/Wait/Block/UOD lines in Base s/min/h (and L/mL with a "
         "scripted totalizer), Base changes, nested blocks, Watch/Alarm bodies, Wait 0-3 s (s and min) x user schedules "
         "with Pause/Unpause and Hold/Unhold windows between ticks (a minority with Restart or Stop/Start) x scripted "
-        "FT01/totalizer trajectories; tick interval 0.1 s on a drift-free virtual clock, run to quiescence. distinct = "
+        "FT01/totalizer trajectories; tick interval 0.1 s on a drift-free virtual clock, run to quiescence; plus a long-run "
+        "stratum (2 runs per shard quick, 3 thorough, Base s/min/h x root/block rotated over the shards): a threshold of "
+        "1000-1060 s (not a whole number of seconds, mostly off the tick grid) at root level or inside a block, further "
+        "thresholds in other Base units falling due a few seconds later on the scope clock, in the thorough tier a last "
+        "threshold of 10 000 s and more, Pause/Hold windows anywhere and around the instant the threshold falls due, "
+        "10-11 thousand (thorough: 100-110 thousand) ticks each. distinct = "
         "shape hash of method text + schedule kinds; non-trivial = at least one threshold decision or Wait successor "
         "was judged")
 ASSUMPTIONS = [
